@@ -27,7 +27,13 @@ RECURSIVE Walk(_, _, _, _)
 Walk(o, model, j, acc) ==
   IF j > Len(o.ops) \/ j + 1 > Len(o.steps) THEN acc
   ELSE Bind(ApplyOp(model, o.ops[j], o.ta), LAMBDA m2 :
-         LET bad == StepBad(o.steps[j + 1], m2, o.probe)
+         LET prev == o.steps[j]
+             now == o.steps[j + 1]
+             \* "purging a power the polynomial does not have changes nothing": not the map only, the stored
+             \* coefficient list and the order as well
+             absent == o.ops[j].op = "purge" /\ o.ops[j].k >= Len(prev.coefs) /\ now.st # "panic"
+                       /\ (now.coefs # prev.coefs \/ now.order # prev.order)
+             bad == StepBad(now, m2, o.probe) \cup (IF absent THEN {"purging_an_absent_power_changes_nothing"} ELSE {})
          IN \* stop at the first diverging step: later steps would only repeat the same defect
             IF bad # {} THEN acc \cup {<<j, c>> : c \in bad}
             ELSE Walk(o, m2, j + 1, acc))
